@@ -126,26 +126,32 @@ Ltac wr_step_zero :=
   rewrite lane_write_zero_noop by (try (vm_compute; reflexivity); vm_compute; discriminate);
   cbn [obind].
 
+Ltac norm_buf tail :=
+  cbn [firstn skipn be_bytes Nat.add];
+  lazymatch goal with
+  | |- context [?l ++ tail] => let l' := eval cbn [app] in l in change (l ++ tail) with (l' ++ tail)
+  end.
+
 Lemma common_header_closed u pt dn sn ps tail :
   (dn = 0 \/ dn = 3) -> (sn = 0 \/ sn = 3) ->
   wr_all (Z12 ++ tail) (common_header_writes u pt dn sn ps)
   = Ok ([0;0;0;0; PROTO_SCMP mod 256; u mod 256; (ps / 256) mod 256; ps mod 256; pt mod 256; dn * 16 + sn; 0; 0] ++ tail).
 Proof.
-  intros Hd Hs. unfold common_header_writes, Z12. cbn [wr_all]. Show.
+  intros Hd Hs. unfold common_header_writes, Z12. cbn [wr_all].
   wr_step_zero. wr_step_zero. wr_step_zero.
   (* next header, header length, payload length, path type: aligned *)
   rewrite wr_app by (try (vm_compute; reflexivity); vm_compute; discriminate). cbn [obind].
   change CommonHeader_NEXT_HEADER_RNG with (8 * N.of_nat 4, 8 * N.of_nat 1).
-  rewrite lane_write_aligned by (cbn; lia). cbn [firstn skipn app be_bytes Nat.add].
+  rewrite lane_write_aligned by (cbn; lia). norm_buf tail.
   rewrite wr_app by (try (vm_compute; reflexivity); vm_compute; discriminate). cbn [obind].
   change CommonHeader_HEADER_LEN_RNG with (8 * N.of_nat 5, 8 * N.of_nat 1).
-  rewrite lane_write_aligned by (cbn; lia). cbn [firstn skipn app be_bytes Nat.add].
+  rewrite lane_write_aligned by (cbn; lia). norm_buf tail.
   rewrite wr_app by (try (vm_compute; reflexivity); vm_compute; discriminate). cbn [obind].
   change CommonHeader_PAYLOAD_LEN_RNG with (8 * N.of_nat 6, 8 * N.of_nat 2).
-  rewrite lane_write_aligned by (cbn; lia). cbn [firstn skipn app be_bytes Nat.add].
+  rewrite lane_write_aligned by (cbn; lia). norm_buf tail.
   rewrite wr_app by (try (vm_compute; reflexivity); vm_compute; discriminate). cbn [obind].
   change CommonHeader_PATH_TYPE_RNG with (8 * N.of_nat 8, 8 * N.of_nat 1).
-  rewrite lane_write_aligned by (cbn; lia). cbn [firstn skipn app be_bytes Nat.add].
+  rewrite lane_write_aligned by (cbn; lia). norm_buf tail.
   (* the two address type/length nibbles *)
   rewrite wr_app by (try (vm_compute; reflexivity); vm_compute; discriminate). cbn [obind].
   rewrite wr_app by (try (vm_compute; reflexivity); rewrite blen_lane_write; vm_compute; discriminate). cbn [obind].
@@ -153,6 +159,226 @@ Proof.
   (* reserved *)
   rewrite wr_app by (try (vm_compute; reflexivity); vm_compute; discriminate). cbn [obind].
   change CommonHeader_RSV_RNG with (8 * N.of_nat 10, 8 * N.of_nat 2).
-  rewrite lane_write_aligned by (cbn; lia). cbn [firstn skipn app be_bytes Nat.add].
+  rewrite lane_write_aligned by (cbn; lia). norm_buf tail.
   change (0 / 256 mod 256) with 0. change (0 mod 256) with 0. reflexivity.
+Qed.
+
+Lemma address_closed e0 e1 e2 e3 e4 e5 e6 e7 e8 e9 e10 e11 tail :
+  wr_all ([e0;e1;e2;e3;e4;e5;e6;e7;e8;e9;e10;e11] ++ repeat 0 16 ++ tail) (address_ia_writes IA_WILDCARD IA_WILDCARD)
+  = Ok ([e0;e1;e2;e3;e4;e5;e6;e7;e8;e9;e10;e11] ++ repeat 0 16 ++ tail).
+Proof.
+  change ([e0;e1;e2;e3;e4;e5;e6;e7;e8;e9;e10;e11] ++ repeat 0 16 ++ tail)
+    with ([e0;e1;e2;e3;e4;e5;e6;e7;e8;e9;e10;e11;0;0;0;0;0;0;0;0;0;0;0;0;0;0;0;0] ++ tail).
+  unfold address_ia_writes. cbn [wr_all].
+  change (N.shiftr IA_WILDCARD 48) with 0. change (N.land IA_WILDCARD (N.ones 48)) with 0.
+  wr_step_zero. wr_step_zero. wr_step_zero. wr_step_zero. reflexivity.
+Qed.
+
+Lemma copy_into_exact pre old post lo data :
+  lo = blen pre -> blen old = blen data -> copy_into (pre ++ old ++ post) lo data = Ok (pre ++ data ++ post).
+Proof.
+  intros -> H. unfold copy_into, blen in *. rewrite !app_length.
+  replace (_ <=? _) with true by lia. f_equal.
+  rewrite firstn_app_exact by lia. f_equal. f_equal.
+  rewrite app_assoc. apply skipn_app_exact. rewrite app_length. lia.
+Qed.
+
+Lemma zeros_add a b : zeros (a + b) = zeros a ++ zeros b.
+Proof. unfold zeros. rewrite <- repeat_app. f_equal. lia. Qed.
+
+Definition reply_header_bytes (s d : ipaddr) (ps : N) : bytes :=
+  [0;0;0;0; PROTO_SCMP mod 256; trunc 8 (reply_header_size s d / 4) mod 256;
+   (trunc 16 ps / 256) mod 256; trunc 16 ps mod 256; PT_EMPTY mod 256; ip_nibble d * 16 + ip_nibble s; 0; 0]
+  ++ repeat 0 16 ++ ip_octets d ++ ip_octets s.
+
+Lemma ip_nibble_cases a : ip_nibble a = 0 \/ ip_nibble a = 3.
+Proof. destruct a; [left|right]; reflexivity. Qed.
+
+Lemma encode_reply_header_closed s d ps :
+  ip_wf s = true -> ip_wf d = true -> encode_reply_header s d ps = Ok (reply_header_bytes s d ps).
+Proof.
+  intros Ws Wd. destruct (ip_wf_octets s Ws) as [Ls Os]. destruct (ip_wf_octets d Wd) as [Ld Od].
+  unfold encode_reply_header, reply_header_bytes.
+  rewrite reply_header_size_eq at 1.
+  replace (28 + ip_size s + ip_size d) with (12 + (16 + (ip_size d + ip_size s))) by lia.
+  rewrite !zeros_add. change (zeros 12) with Z12. change (zeros 16) with (repeat 0 16).
+  rewrite common_header_closed by apply ip_nibble_cases. cbn [obind].
+  rewrite address_closed. cbn [obind].
+  destruct (host_rng_bytes (ip_size s) (ip_size d)) as [-> ->].
+  match goal with |- context [copy_into (?h ++ repeat 0 16 ++ ?t) 28 _] =>
+    change (h ++ repeat 0 16 ++ t) with ((h ++ repeat 0 16) ++ t) end.
+  rewrite copy_into_exact; [|reflexivity|rewrite blen_zeros; lia]. cbn [obind].
+  match goal with |- context [copy_into ((?h ++ repeat 0 16) ++ ?o ++ ?t) _ _] =>
+    replace ((h ++ repeat 0 16) ++ o ++ t) with (((h ++ repeat 0 16) ++ o) ++ t ++ []) by (rewrite app_nil_r, <- !app_assoc; reflexivity) end.
+  rewrite copy_into_exact; [| |rewrite blen_zeros; lia].
+  - rewrite app_nil_r, <- !app_assoc. reflexivity.
+  - unfold blen in *. rewrite !app_length, repeat_length. cbn [length]. lia.
+Qed.
+
+(** * The SCMP message *)
+
+Lemma param_problem_closed c p tail :
+  wr_all ([0;0;0;0;0;0;0;0] ++ tail) (param_problem_writes c p)
+  = Ok ([SCMP_T_ParameterProblem mod 256; c mod 256; 0; 0; 0; 0; (p / 256) mod 256; p mod 256] ++ tail).
+Proof.
+  unfold param_problem_writes. cbn [wr_all].
+  rewrite wr_app by (try (vm_compute; reflexivity); vm_compute; discriminate). cbn [obind].
+  change ScmpParameterProblem_TYPE_RNG with (8 * N.of_nat 0, 8 * N.of_nat 1).
+  rewrite lane_write_aligned by (cbn; lia). norm_buf tail.
+  rewrite wr_app by (try (vm_compute; reflexivity); vm_compute; discriminate). cbn [obind].
+  change ScmpParameterProblem_CODE_RNG with (8 * N.of_nat 1, 8 * N.of_nat 1).
+  rewrite lane_write_aligned by (cbn; lia). norm_buf tail.
+  rewrite wr_app by (try (vm_compute; reflexivity); vm_compute; discriminate). cbn [obind].
+  change ScmpParameterProblem_CHECKSUM_RNG with (8 * N.of_nat 2, 8 * N.of_nat 2).
+  rewrite lane_write_aligned by (cbn; lia). norm_buf tail.
+  rewrite wr_app by (try (vm_compute; reflexivity); vm_compute; discriminate). cbn [obind].
+  change ScmpParameterProblem_RESERVED_RNG with (8 * N.of_nat 4, 8 * N.of_nat 2).
+  rewrite lane_write_aligned by (cbn; lia). norm_buf tail.
+  rewrite wr_app by (try (vm_compute; reflexivity); vm_compute; discriminate). cbn [obind].
+  change ScmpParameterProblem_POINTER_RNG with (8 * N.of_nat 6, 8 * N.of_nat 2).
+  rewrite lane_write_aligned by (cbn; lia). norm_buf tail.
+  change (0 / 256 mod 256) with 0. change (0 mod 256) with 0. reflexivity.
+Qed.
+
+Lemma encode_param_problem_closed s d c p off hs m :
+  hs <= 60 -> encode_param_problem s d c p off hs = Ok m ->
+  exists k2 k3,
+    m = [SCMP_T_ParameterProblem mod 256; c mod 256; k2; k3; 0; 0; (p / 256) mod 256; p mod 256]
+        ++ sub off 0 (pp_payload_size (blen off) hs - 8).
+Proof.
+  intros Hhs. pose proof (pp_payload_size_bounds (blen off) hs Hhs) as (P1 & P2 & P3).
+  unfold encode_param_problem. set (ml := pp_payload_size (blen off) hs) in *.
+  replace ml with (8 + (ml - 8)) at 1 by lia. rewrite zeros_add. change (zeros 8) with [0;0;0;0;0;0;0;0].
+  rewrite param_problem_closed. cbn [obind]. change ScmpParameterProblem_HEADER_SIZE_BYTES with 8.
+  unfold index_range. replace ((0 <=? ml - 8) && (ml - 8 <=? blen off)) with true by lia. cbn [obind].
+  assert (Lq : blen (sub off 0 (ml - 8)) = ml - 8) by (rewrite blen_sub by lia; lia).
+  match goal with |- context [copy_into (?h ++ zeros (ml - 8)) 8 ?q] =>
+    replace (h ++ zeros (ml - 8)) with (h ++ zeros (ml - 8) ++ []) by (rewrite app_nil_r; reflexivity) end.
+  rewrite copy_into_exact; [|reflexivity|rewrite blen_zeros; lia]. rewrite app_nil_r. cbn [obind].
+  destruct (checksum _) as [ck| |]; cbn [obind]; try discriminate.
+  rewrite wr_app by (try (vm_compute; reflexivity); vm_compute; discriminate).
+  change ScmpParameterProblem_CHECKSUM_RNG with (8 * N.of_nat 2, 8 * N.of_nat 2).
+  rewrite lane_write_aligned by (cbn; lia).
+  cbn [firstn skipn be_bytes Nat.add app]. intros H. inversion H. eauto.
+Qed.
+
+(** * Every reply satisfies the specification's reply predicate *)
+
+Lemma list_eqb_refl (l : list N) : list_eqb N.eqb l l = true.
+Proof. induction l as [|a l IH]; cbn [list_eqb]; [reflexivity|]. rewrite N.eqb_refl, IH. reflexivity. Qed.
+
+Lemma is_prefix_firstn (d : list N) j : is_prefix (firstn j d) d = true.
+Proof.
+  unfold is_prefix. rewrite firstn_length.
+  replace (firstn (Nat.min j (length d)) d) with (firstn j d); [apply list_eqb_refl|].
+  destruct (Nat.le_ge_cases j (length d)) as [L|L].
+  - rewrite Nat.min_l by lia. reflexivity.
+  - rewrite Nat.min_r by lia. rewrite !firstn_all2 by lia. reflexivity.
+Qed.
+
+Lemma sub0_firstn b n : sub b 0 n = firstn (N.to_nat n) b.
+Proof. unfold sub. rewrite N.sub_0_r. reflexivity. Qed.
+
+Lemma first12_fields e0 e1 e2 e3 e4 e5 e6 e7 e8 e9 e10 e11 X :
+  let r := [e0;e1;e2;e3;e4;e5;e6;e7;e8;e9;e10;e11] ++ X in
+  spec_version r = e0 / 16 /\ spec_next_hdr r = e4 /\ spec_hdr_len r = 4 * e5 /\
+  spec_payload_len r = 256 * e6 + e7 /\ spec_path_type r = e8 /\
+  spec_dst_tl r = e9 / 16 /\ spec_src_tl r = e9 mod 16.
+Proof. repeat split; reflexivity. Qed.
+
+Lemma reply_ok_lemma s p c ptr off d r :
+  ip_wf s = true -> ip_wf p = true ->
+  (off = d \/ exists n, off = sub d 0 n) ->
+  encode_scmp_reply s p c ptr off = Ok r -> spec_reply_ok r d p = true.
+Proof.
+  intros Ws Wp Hoff E. pose proof (encode_scmp_reply_len _ _ _ _ _ _ E) as Hlen.
+  destruct (ip_wf_octets s Ws) as [Ls Os]. destruct (ip_wf_octets p Wp) as [Lp Op].
+  pose proof (reply_header_size_bounds s p) as (B1 & B2). pose proof (reply_header_size_eq s p) as Hs.
+  set (hs := reply_header_size s p) in *.
+  pose proof (pp_payload_size_bounds (blen off) hs ltac:(lia)) as (P1 & P2 & P3).
+  unfold encode_scmp_reply in E. fold hs in E.
+  destruct (negb _); [discriminate|]. destruct (_ <? _); [discriminate|]. destruct (_ <? _); [discriminate|].
+  rewrite (encode_reply_header_closed s p _ Ws Wp) in E.
+  destruct (encode_param_problem s p c ptr off hs) as [m| |] eqn:Em; try discriminate.
+  assert (Hhs60 : hs <= 60) by lia.
+  destruct (encode_param_problem_closed s p c ptr off hs m Hhs60 Em) as (k2 & k3 & Hm).
+  set (ml := pp_payload_size (blen off) hs) in *.
+  assert (Er : r = reply_header_bytes s p ml ++ m) by congruence. clear E. subst r.
+  (* the quote is a prefix of the datagram *)
+  assert (Hq : exists j, sub off 0 (ml - 8) = firstn j d).
+  { destruct Hoff as [-> | (n & ->)].
+    - exists (N.to_nat (ml - 8)). apply sub0_firstn.
+    - rewrite !sub0_firstn, firstn_firstn. eauto. }
+  destruct Hq as (j & Hq). rewrite Hq in Hm. clear Hq.
+  (* lengths *)
+  assert (Lh : blen (reply_header_bytes s p ml) = hs).
+  { unfold reply_header_bytes, blen in *. rewrite !app_length, repeat_length. cbn [length]. lia. }
+  assert (Lm : 8 <= blen m) by (rewrite Hm; unfold blen; rewrite app_length; cbn [length]; lia).
+  change SCMP_ERROR_MAX_PACKET_SIZE with 1232 in Hlen.
+  (* the fields of the first twelve bytes *)
+  unfold reply_header_bytes. fold hs.
+  rewrite <- !app_assoc.
+  match goal with |- spec_reply_ok (?l12 ++ ?X) _ _ = true => set (RX := X) end.
+  match goal with |- spec_reply_ok ([?e0;?e1;?e2;?e3;?e4;?e5;?e6;?e7;?e8;?e9;?e10;?e11] ++ _) _ _ = true =>
+    pose proof (first12_fields e0 e1 e2 e3 e4 e5 e6 e7 e8 e9 e10 e11 RX) as F; cbv zeta in F end.
+  match goal with |- spec_reply_ok ?R _ _ = true => set (r := R) in * end.
+  destruct F as (F0 & F4 & F5 & F67 & F8 & F9d & F9s).
+  change (0 / 16) with 0 in F0. change (PROTO_SCMP mod 256) with 202 in F4. change (PT_EMPTY mod 256) with 0 in F8.
+  assert (Fhl : spec_hdr_len r = hs) by (rewrite F5; unfold trunc; change (2 ^ 8) with 256; lia).
+  assert (Fpl : spec_payload_len r = ml) by (rewrite F67; unfold trunc; change (2 ^ 16) with 65536; lia).
+  pose proof (ip_nibble_cases s) as Ns. pose proof (ip_nibble_cases p) as Np.
+  assert (Fd : spec_dst_tl r = ip_nibble p) by (rewrite F9d; lia).
+  assert (Fs : spec_src_tl r = ip_nibble s) by (rewrite F9s; lia).
+  assert (Hl : forall a, spec_host_len (ip_nibble a) = ip_size a) by (intros [o|o]; reflexivity).
+  assert (Fpo : spec_path_off r = hs).
+  { unfold spec_path_off, spec_src_off, spec_dst_off. rewrite Fd, Fs, !Hl. lia. }
+  assert (Flen : len r = hs + blen m).
+  { unfold r, RX, len, blen in *. rewrite !app_length, repeat_length in *. cbn [length] in *. lia. }
+  (* destination host field *)
+  assert (Fdst : octets r spec_dst_off (ip_size p) = ip_octets p).
+  { unfold octets, r, RX, spec_dst_off.
+    match goal with |- firstn _ (skipn _ (?l12 ++ repeat 0 16 ++ ?o ++ ?rest)) = _ =>
+      change (l12 ++ repeat 0 16 ++ o ++ rest) with ((l12 ++ repeat 0 16) ++ o ++ rest) end.
+    rewrite skipn_app_exact by reflexivity. apply firstn_app_exact. unfold blen in Lp. lia. }
+  (* the SCMP message *)
+  assert (Fr : r = reply_header_bytes s p ml ++ m).
+  { unfold r, RX, reply_header_bytes. fold hs. rewrite <- !app_assoc. reflexivity. }
+  assert (Ft : byte r hs = 4).
+  { rewrite Fr. unfold byte. unfold reply_header_bytes in *. fold hs in Lh |- *. unfold blen in Lh.
+    rewrite app_nth2 by lia. replace (N.to_nat hs - _)%nat with 0%nat by lia. rewrite Hm. reflexivity. }
+  assert (Fq : skipn (N.to_nat (hs + 8)) r = firstn j d).
+  { rewrite Fr. unfold reply_header_bytes in *. fold hs in Lh |- *. unfold blen in Lh.
+    replace (N.to_nat (hs + 8)) with (8 + N.to_nat hs)%nat by lia. rewrite <- ListAux.skipn_skipn.
+    rewrite skipn_app_exact by lia. rewrite Hm. reflexivity. }
+  unfold spec_reply_ok. rewrite Fhl, F0, F4, F8, Fpo, Fpl, Ft, Fq, is_prefix_firstn, Flen.
+  assert (Edst : match p with
+                 | IPv4 o => (spec_dst_tl r =? 0) && list_eqb N.eqb (octets r spec_dst_off 4) o
+                 | IPv6 o => (spec_dst_tl r =? 3) && list_eqb N.eqb (octets r spec_dst_off 16) o
+                 end = true).
+  { rewrite Fd. destruct p as [o|o]; cbn [ip_nibble ip_size ip_octets] in *;
+      change HAT_IPV4_SIZE with 4 in Fdst; change HAT_IPV6_SIZE with 16 in Fdst;
+      rewrite Fdst, list_eqb_refl; reflexivity. }
+  rewrite Edst. unfold SCMP_MAX, SEND_BUF.
+  replace (hs + blen m <=? 1232) with true by (unfold blen in *; rewrite app_length in Hlen; unfold hs in *; lia).
+  replace (12 <=? hs + blen m) with true by lia.
+  replace (hs + 8 <=? hs + blen m) with true by lia.
+  replace (ml =? hs + blen m - hs) with true.
+  2:{ pose proof (encode_param_problem_len _ _ _ _ _ _ _ Em). fold ml in H. lia. }
+  rewrite !N.eqb_refl. reflexivity.
+Qed.
+
+Lemma reply_spec_lemma local d from l r :
+  ip_wf local = true -> ip_wf from = true ->
+  gateway_inbound local d from = Ok l -> In (Sent r) l -> spec_reply_ok r d from = true.
+Proof.
+  intros Wl Wf H Hin.
+  destruct (gateway_inbound_inv _ _ _ _ H) as [(v & _ & ->)|(e & Hc & [(_ & ->)|(_ & c & p & off & Hs & [(b & E & ->)|(ee & _ & ->)])])].
+  - destruct Hin as [Hin|[]]. discriminate.
+  - destruct Hin.
+  - destruct Hin as [Hin|[]]. inversion Hin; subst b. rewrite check_is_nf in Hc.
+    destruct (scmp_error_of_check d from e Hc) as (c' & p' & off' & Hs' & Hoff).
+    rewrite Hs in Hs'. inversion Hs'; subst c' p' off'.
+    apply (reply_ok_lemma local from c p off d r Wl Wf); [|exact E].
+    destruct Hoff as [-> | ->]; [left; reflexivity|right; unfold f_view; eauto].
+  - destruct Hin.
 Qed.
